@@ -83,6 +83,14 @@ theorem splitSlash_head (p : List Nat) :
           refine ⟨p', by rw [h1]; simp, ?_⟩
           simp only [splitSlash, hc, if_false, h2]
 
+theorem splitSlash_no47 (s : List Nat) (h : 47 ∉ s) : splitSlash s = [s] := by
+  induction s with
+  | nil => simp [splitSlash]
+  | cons c cs ih =>
+    have hc : c ≠ 47 := by intro e; apply h; simp [e]
+    have hcs : 47 ∉ cs := by intro e; apply h; simp [e]
+    simp [splitSlash, hc, ih hcs]
+
 theorem body_nil : body [] = [] := by
   simp [body, splitSlash, classify]
 
@@ -233,6 +241,18 @@ theorem push_nil (p : List Nat) : push [] p = p := by
 theorem lexResolve_append_normal (cs : List Comp) (n : List Nat) :
     lexResolve (cs ++ [Comp.normal n]) = lexResolve cs ++ [Comp.normal n] := by
   simp [lexResolve, List.foldl_append, resStep]
+
+theorem startsWith_iff (e pre : List Nat) : startsWith e pre = true ↔ ∃ s, e = pre ++ s := by
+  induction pre generalizing e with
+  | nil => simp [startsWith]
+  | cons p ps ih =>
+    cases e with
+    | nil => simp [startsWith]
+    | cons x xs =>
+      simp only [startsWith, Bool.and_eq_true, beq_iff_eq, ih, List.cons_append, List.cons.injEq]
+      constructor
+      · rintro ⟨rfl, s, rfl⟩; exact ⟨s, rfl, rfl⟩
+      · rintro ⟨s, rfl, rfl⟩; exact ⟨rfl, s, rfl⟩
 
 /-! ### ranges -/
 
